@@ -788,7 +788,7 @@ impl Prop for C20 {
         if case.hash_seed % 5 == 1 {
             x.begin_op(97);
             let prior = x.path("earlier.ommx");
-            let r = x.sut(|| -> anyhow::Result<()> {
+            let r = x.quietly(|x| x.sut(|| -> anyhow::Result<()> {
                 let mut b = Builder::new_archive_unnamed(prior.clone())?;
                 let mut inst = v1::Instance::default();
                 inst.sense = v1::instance::Sense::Maximize as i32;
@@ -799,7 +799,7 @@ impl Prop for C20 {
                 let mut art = Artifact::from_oci_archive(&prior)?;
                 let _ = art.get_instances()?;
                 Ok(())
-            });
+            }));
             if let Ok(Err(e)) = &r {
                 x.violate("C20:builder-error-without-hard-fault", format!("building and reading a one-layer archive without faults fails: {e:#}"));
             }
